@@ -8,7 +8,7 @@ a = s.index('| seed | change | needs to manifest | confirmed | reported by |')
 b = s.index('\nNotes.', a)
 s = s[:a] + tbl + '\n' + s[b:]
 idx = subprocess.check_output(['python3', '/verif/tools/rule_index.py'], text=True).strip()
-head = '### 11.13 Rule index (generated from the evidence of the last run)'
+head = '### 11.14 Rule index (generated from the evidence of the last run)'
 if head in s:
     s = s[:s.index(head)].rstrip('\n') + '\n'
 s = s.rstrip('\n') + '\n\n' + head + '\n\n' + ('Every rule id that appears in a `VIOLATION` key, with the number of instances decided in the last quick run and the '
